@@ -9,6 +9,7 @@ mod common;
 mod gen;
 mod inputs;
 mod registry;
+mod tree;
 mod universe;
 
 #[global_allocator]
@@ -25,7 +26,7 @@ fn run_generic(mode: Mode, args: &Args, prefix: &str, rule: &str) {
 		rng: Rng::new(args.seed ^ (mode as u64) << 32),
 		thorough: args.thorough,
 		cases: {
-			let mut c = Cases::new("Require Import Scale.Bytes Scale.Hex Scale.Codec Scale.CorrGen.", "gcase", "g_check");
+			let mut c = Cases::new("Require Import Scale.Bytes Scale.Hex Scale.Codec Scale.Rec Scale.CorrGen.", "gcase", "g_check");
 			if args.thorough {
 				c.max_total = 160 << 20;
 				c.max_case = 3 << 20;
@@ -40,6 +41,12 @@ fn run_generic(mode: Mode, args: &Args, prefix: &str, rule: &str) {
 	{
 		let cx = &mut cx;
 		for_all_types!(run_type, cx);
+	}
+	// the recursive derived type (its model is Rec.rdec, not a universe type)
+	match cx.only.clone() {
+		None => tree::run(&mut cx),
+		Some(o) if o[0] == "Tree" => tree::replay(&mut cx, &o),
+		_ => {},
 	}
 	if mode == Mode::C09 && args.only.is_none() {
 		// the known finding F4, re-confirmed with a capped count: a zero-wire element type
@@ -71,6 +78,10 @@ fn main() {
 	if args.len() < 2 {
 		eprintln!("usage: harness <property> --seed N --tier quick|thorough --out DIR [--only LINE]");
 		std::process::exit(2);
+	}
+	if args[1] == "treedeep" {
+		tree::deep_main(&args[2..]);
+		return;
 	}
 	let a = Args::parse(&args[2..]);
 	let gen_rule = "for each registry type (see distribution.registry_types): seeded boundary-biased values (lengths 0,1,2,63..65,16383..16385 and around multiples of 16384/size_of::<T>, wrapped deques, bit sequences with head offsets, class boundaries of every integer width) and, for decode-driven properties, each valid encoding plus structured mutations (bit flip, boundary byte, truncation, extension, count tampering at the front and inside, splice, count+-1, invalid utf8/tag bytes) and random strings; non-trivial = non-empty input; distinct by hash of the whole case term (type, input, layers, implementation result)";
